@@ -196,7 +196,7 @@ def correspondence(ctx):
         single.append(["subtree", tips[:2], False, True, False])
         for op in single:
             cases.append((t, [op], dict(kind="small", ntips=len(tips))))
-    n_rand = ctx.budget(700, 12000)
+    n_rand = ctx.budget(700, 30000)
     for _ in range(n_rand):
         t, meta = _gen_tree(rng)
         cases.append((t, None, meta))  # ops generated adaptively below (need the current tree)
@@ -328,7 +328,7 @@ def _real_parse(text):
 
 def _corr_newick(ctx, out, rng, small):
     trees = [(t, "small") for t in small[:: max(1, len(small) // 60)]]
-    for _ in range(ctx.budget(250, 4000)):
+    for _ in range(ctx.budget(250, 8000)):
         t, meta = _gen_tree(rng, odd=rng.random() < 0.5)
         trees.append((t, "rand"))
     reqs = [("newick", dict(tree=U.frac_json(t), with_len=w)) for t, _ in trees for w in (True, False)]
@@ -476,7 +476,7 @@ def _real_treedist(a, b, method):
 
 def _corr_treedist(ctx, out, rng, small):
     pairs = []
-    for _ in range(ctx.budget(500, 8000)):
+    for _ in range(ctx.budget(500, 15000)):
         if rng.random() < 0.25:
             t = rng.choice(small)
         else:
